@@ -592,7 +592,7 @@ Section Sim2.
       apply andb_prop in Hwf. destruct Hwf as [Hwf Hbody]. apply andb_prop in Hwf. destruct Hwf as [Hwf Hhl].
       apply andb_prop in Hwf. destruct Hwf as [Hwf Hsort]. apply andb_prop in Hwf. destruct Hwf as [Hwf Hgrp].
       apply andb_prop in Hwf. destruct Hwf as [Hwf Hval]. apply andb_prop in Hwf. destruct Hwf as [Hd Hset].
-      apply Nat.ltb_lt in Hd. apply Nat.leb_le in Hhl.
+      apply Nat.leb_le in Hd. apply Nat.leb_le in Hhl.
       assert (Hset' : match set with Some p => TfullModel.wf_path p = true | None => True end)
         by (destruct set as [p|]; [apply andb_prop in Hset; exact (proj1 Hset)|exact I]).
       rewrite print_node_TLoop in *. rewrite steps_loop.
